@@ -96,3 +96,95 @@ impl AtomicU64 {
         self.0.fetch_add(v, order)
     }
 }
+
+// ---------------------------------------------------------------------------------------------
+// Registry maps with a hasher the harness can seed: the order in which a group invalidation
+// visits several matching caches is the iteration order of a `HashSet`, which std randomises per
+// process. With a settable seed the order is reproducible (a recorded schedule replays in another
+// process) and different orders can be selected deliberately.
+// ---------------------------------------------------------------------------------------------
+
+static HASH_SEED: std::sync::atomic::AtomicU64 = std::sync::atomic::AtomicU64::new(0);
+
+/// Seed used by every registry map / set created from now on.
+pub fn set_hash_seed(seed: u64) {
+    HASH_SEED.store(seed, Ordering::SeqCst);
+}
+
+#[derive(Clone, Copy, Debug)]
+pub struct SeededState(u64);
+
+impl Default for SeededState {
+    fn default() -> Self {
+        SeededState(HASH_SEED.load(Ordering::SeqCst))
+    }
+}
+
+impl std::hash::BuildHasher for SeededState {
+    type Hasher = std::collections::hash_map::DefaultHasher;
+    fn build_hasher(&self) -> Self::Hasher {
+        use std::hash::Hasher;
+        let mut h = std::collections::hash_map::DefaultHasher::new();
+        h.write_u64(self.0);
+        h
+    }
+}
+
+/// `std::collections::HashMap` with the seeded hasher and the constructors the registry uses.
+#[derive(Debug)]
+pub struct HashMap<K, V>(std::collections::HashMap<K, V, SeededState>);
+
+impl<K, V> HashMap<K, V> {
+    pub fn new() -> Self {
+        HashMap(std::collections::HashMap::with_hasher(SeededState::default()))
+    }
+}
+impl<K, V> Default for HashMap<K, V> {
+    fn default() -> Self {
+        Self::new()
+    }
+}
+impl<K, V> std::ops::Deref for HashMap<K, V> {
+    type Target = std::collections::HashMap<K, V, SeededState>;
+    fn deref(&self) -> &Self::Target {
+        &self.0
+    }
+}
+impl<K, V> std::ops::DerefMut for HashMap<K, V> {
+    fn deref_mut(&mut self) -> &mut Self::Target {
+        &mut self.0
+    }
+}
+
+/// `std::collections::HashSet` with the seeded hasher.
+#[derive(Debug, Clone)]
+pub struct HashSet<T>(std::collections::HashSet<T, SeededState>);
+
+impl<T> HashSet<T> {
+    pub fn new() -> Self {
+        HashSet(std::collections::HashSet::with_hasher(SeededState::default()))
+    }
+}
+impl<T> Default for HashSet<T> {
+    fn default() -> Self {
+        Self::new()
+    }
+}
+impl<T> std::ops::Deref for HashSet<T> {
+    type Target = std::collections::HashSet<T, SeededState>;
+    fn deref(&self) -> &Self::Target {
+        &self.0
+    }
+}
+impl<T> std::ops::DerefMut for HashSet<T> {
+    fn deref_mut(&mut self) -> &mut Self::Target {
+        &mut self.0
+    }
+}
+impl<'a, T> IntoIterator for &'a HashSet<T> {
+    type Item = &'a T;
+    type IntoIter = std::collections::hash_set::Iter<'a, T>;
+    fn into_iter(self) -> Self::IntoIter {
+        self.0.iter()
+    }
+}
